@@ -282,6 +282,40 @@ def run(ctx):
         if [canon(x) for x in real] != [canon(x) for x in model]:
             ctx.violation('a history of cached gettransaction queries disagrees with the cache + provider machine',
                           {'op': 'svc_hist', 'line': ';'.join(qlines), 'observed': real, 'model': model})
+    # ---- histories of estimatefee (cached per group high / medium / low): what is read for a block count is what was stored for
+    #      that block count's group, or a provider's answer ----------------------------------------------------------------------
+    for hidx in range(10 if not T else 50):
+        srv = new_service(2)
+        srv.max_providers = 1
+        qlines, real = [], []
+        for step in range(rng.randrange(3, 8)):
+            blocks = rng.choice([1, 2, 3, 5, 5, 6, 10, 25])
+            prio = rng.choice(['', '', '', 'low', 'high'])
+            maxe = rng.choice([1, 2, 4])
+            outs = [rng.choice(['ok', 'ok', 'empty', 'raise']) for _ in range(2)]
+            srv.max_errors = maxe
+            for i in range(2):
+                tag = step * 10 + i
+                script[i] = {'blockcount': ('ok', 800000), 'estimatefee': {'ok': ('ok', 20000 + tag), 'empty': ('empty',), 'raise': ('raise',)}[outs[i]]}
+                srv.providers['fake%d' % i]['priority'] = 50 - i
+            key = int(run_driver(['svc_feegroup %d %s' % (blocks, prio or '-')])[0].split(' | ')[0])
+            qlines.append('%d:1:%d:%s' % (key, maxe, ','.join('ok%d' % (step * 10 + i) if o == 'ok' else o for i, o in enumerate(outs))))
+            try:
+                r = srv.estimatefee(blocks, priority=prio)
+                real.append('value %d' % (r - 20000) if isinstance(r, int) and 20000 <= r < 21000 else 'other:%r' % (r,))
+            except ServiceError:
+                real.append('error')
+            except Exception as e:
+                real.append('raise:%s' % type(e).__name__)
+        model = run_driver(['svc_hist ' + ';'.join(qlines)])[0].split(' | ')[0].split(';')
+        ctx.evals += len(real)
+        ctx.traces += 1
+        ctx.count('estimatefee-history')
+        canon = lambda x: 'error' if x == 'false' else x
+        if [canon(x) for x in real] != [canon(x) for x in model]:
+            ctx.violation('a history of estimatefee queries disagrees with the cache + provider machine (cache slot = fee group of the block count)',
+                          {'op': 'svc_hist estimatefee', 'line': ';'.join(qlines), 'observed': real, 'model': model})
+
     # ---- a failed query must not poison later ones: all providers down (error limit reached), then healthy again ---------------
     for qname, (call, answer, who) in queries.items():
         for maxe in (1, 2, 4):
